@@ -2,8 +2,8 @@
 """Print the markdown table of seeded changes (seeded/*/meta.json) for DESIGN.md §8.6."""
 import glob, json, os
 root = os.path.dirname(os.path.dirname(os.path.abspath(__file__)))
-print("| Seed | Property | What it needs to manifest | Confirmed | Caught by | With concrete input |")
-print("|---|---|---|---|---|---|")
+print("| Seed | Property | What it needs to manifest | Confirmed | Caught by | With concrete input | On the repaired tree |")
+print("|---|---|---|---|---|---|---|")
 for f in sorted(glob.glob(os.path.join(root, "seeded", "*", "meta.json"))):
     m = json.load(open(f))
     how = set()
@@ -18,5 +18,9 @@ for f in sorted(glob.glob(os.path.join(root, "seeded", "*", "meta.json"))):
     if not m.get("detected"):
         how = {"MISSED"}
     needs = m["needs_to_manifest"].replace("|", "\\|")
-    print("| %s | %s | %s | %s | %s | %s |" % (os.path.basename(os.path.dirname(f)), m["property"], needs[:220] + ("…" if len(needs) > 220 else ""),
-          "yes" if m["confirmed_by_main_session"].get("confirmed") else "NO", "; ".join(sorted(how)), "yes" if m.get("with_concrete_input") else "no (no-failing-input-found)"))
+    pp = m.get("ported_patch")
+    now = "applies, caught"
+    if pp:
+        now = "ported (patch.current.diff), caught" if pp.get("file") else "neutralised by a repair: the property holds on the mutated tree, check silent"
+    print("| %s | %s | %s | %s | %s | %s | %s |" % (os.path.basename(os.path.dirname(f)), m["property"], needs[:220] + ("…" if len(needs) > 220 else ""),
+          "yes" if m["confirmed_by_main_session"].get("confirmed") else "NO", "; ".join(sorted(how)), "yes" if m.get("with_concrete_input") else "no (no-failing-input-found)", now))
